@@ -111,6 +111,7 @@ func TestLoginsOverOneConnection(t *testing.T) {
 		n := rapid.IntRange(2, 3).Draw(rt, "logins")
 		for i := 0; i < n; i++ {
 			c := genCase(rt)
+			shortNames(&c)
 			c.PackSize = 0
 			c.Reject = ""
 			if i < n-1 && rapid.Bool().Draw(rt, "rejected") {
